@@ -242,3 +242,65 @@ class CreateCopySpec(FunctionSpec):
         if obj is ctx["q"].o and what[1] in LAZY_SLOTS:
             return True
         return FunctionSpec.allowed_write(self, I, ctx, obj, what)
+
+
+# ------------------------------------------------------------------------------------------------
+# comparisons (C08)
+
+CMP = {"lt": ast.Lt(), "le": ast.LtE(), "gt": ast.Gt(), "ge": ast.GtE()}
+
+
+def harness(fn):
+    return SBuiltin("harness", lambda I, a, k: fn(I))
+
+
+@register
+class ScalarOrderSpec(FunctionSpec):
+    """a OP b for Scalars (OP ∈ <, <=, >, >=), evaluated with Python's rich-comparison dispatch
+    (including whatever functools.total_ordering installs): quantity types differ ⇒ TypeError;
+    otherwise the result is  value(a) OP conv(unit(b) → unit(a))(value(b))  — with C01's
+    monotonicity lemma: OP on the physical amounts."""
+
+    fq = SC + ".__lt__"
+    key = SC + ".__lt__#ordering"
+    props = ("C08", "C05")
+    callees = BASE_CALLEES
+    probe = "scalar_order"
+
+    def variants(self, tier):
+        return list(CMP)
+
+    def setup(self, I, variant):
+        db, R = std_db(I)
+        qa = mk_q(I, R, db, "simple", "a")
+        qb = mk_q(I, R, db, "simple", "b")
+        a = scalar_obj(I, db, qa, tag="a")
+        b = scalar_obj(I, db, qb, tag="b")
+        op = CMP[variant]
+        f = harness(lambda I: I.compare(op, a, b))
+        return {"f": f, "args": [], "R": R, "st": R.snapshot(), "a": a, "b": b, "op": op, "snaps": (dict(a.o.fields), dict(b.o.fields))}
+
+    def cases(self, I, ctx):
+        R, st, a, b, op = ctx["R"], ctx["st"], ctx["a"], ctx["b"], ctx["op"]
+        qa, qb = a.o.fields["_quantity"], b.o.fields["_quantity"]
+        ta, tb_ = qa.o.fields["_quantity_type"].name, qb.o.fields["_quantity_type"].name
+        va, vb = a.o.fields["_value"], b.o.fields["_value"]
+        out = [rai("different-quantity-types", ta != tb_, "TypeError", props=("C05", "C08"))]
+        same = ta == tb_
+        for n, g, k, x in getvalue_cases(R, st, qb, vb, qa.o.fields["_unit"].name):
+            g = z3.And(same, g)
+            if k == "raise":
+                out.append(unspecified("other-value:" + n, g))  # cannot happen for registered units of one type
+                continue
+            exp = to_z3b(I.num_cmp(op, va, SNum(x, "float")))
+            out.append(ret("compare/" + n, g, props=("C08",), check=lambda I, res, exp=exp: isinstance(res, SBool) and res.t == exp))
+        return out
+
+    def extra_obligations(self, I, ctx, outcome):
+        a, b = ctx["a"], ctx["b"]
+        return [("frame[operands unchanged]", ("C13",), z3.And(to_z3b(value_unchanged(I, a, ctx["snaps"][0])), to_z3b(value_unchanged(I, b, ctx["snaps"][1]))))]
+
+    def allowed_write(self, I, ctx, obj, what):
+        if getattr(obj, "region", "") == "quantity" and what[1] in LAZY_SLOTS:
+            return True
+        return FunctionSpec.allowed_write(self, I, ctx, obj, what)
